@@ -457,6 +457,10 @@ func init() {
 		r := fr.i.run
 		if f, ok := a[0].(symFloat); ok {
 			tc := r.tc
+			if i, c := intOverConst(f.t); i != nil {
+				// Ceil(fl(i / c)) = (i + c - 1) div c   (see intOverConst)
+				return r.mkSymFloat(tc.ToReal(tc.FDiv(tc.Add(i, tc.Int(new(big.Int).Sub(c, big.NewInt(1)))), c)))
+			}
 			n := tc.Neg(tc.Floor(tc.RBin("-", tc.Real(big.NewRat(0, 1)), f.t)))
 			return r.mkSymFloat(tc.Fl(tc.ToReal(n)))
 		}
@@ -465,6 +469,9 @@ func init() {
 	reg("math.Floor", func(fr *frame, a []value) value {
 		r := fr.i.run
 		if f, ok := a[0].(symFloat); ok {
+			if i, c := intOverConst(f.t); i != nil {
+				return r.mkSymFloat(r.tc.ToReal(r.tc.FDiv(i, c)))
+			}
 			return r.mkSymFloat(r.tc.Fl(r.tc.ToReal(r.tc.Floor(f.t))))
 		}
 		return math.Floor(a[0].(float64))
@@ -541,7 +548,24 @@ func init() {
 	reg("math.Pow", func(fr *frame, a []value) value { return math.Pow(a[0].(float64), a[1].(float64)) })
 	reg("math.Log", func(fr *frame, a []value) value { return math.Log(a[0].(float64)) })
 	reg("math.Exp", func(fr *frame, a []value) value { return math.Exp(a[0].(float64)) })
-	reg("math.Round", func(fr *frame, a []value) value { return math.Round(a[0].(float64)) })
+	reg("math.Round", func(fr *frame, a []value) value {
+		r := fr.i.run
+		if f, ok := a[0].(symFloat); ok {
+			tc := r.tc
+			// Round(fl(i / c)) for a non-negative integer i < 2^52 and an integer constant 0 < c <= 2^20 is
+			// computed in integers as (2i + c) div 2c: the quotient's distance from a .5 boundary is 0 or
+			// at least 1/(2c), far more than the 2^-53 relative rounding error of the division.
+			if i, c := intOverConst(f.t); i != nil {
+				n := tc.Add(tc.Mul(i, tc.Int64(2)), tc.Int(c))
+				return r.mkSymFloat(tc.ToReal(tc.FDiv(n, new(big.Int).Mul(c, big.NewInt(2)))))
+			}
+			z, half := tc.Real(big.NewRat(0, 1)), tc.Real(big.NewRat(1, 2))
+			up := tc.Floor(tc.RBin("+", f.t, half))
+			dn := tc.Neg(tc.Floor(tc.RBin("+", tc.RBin("-", z, f.t), half)))
+			return r.mkSymFloat(tc.Fl(tc.ToReal(tc.Ite(tc.Le(z, f.t), up, dn))))
+		}
+		return math.Round(a[0].(float64))
+	})
 	reg("math.Mod", func(fr *frame, a []value) value { return math.Mod(a[0].(float64), a[1].(float64)) })
 
 	// ---- sort (oblivious to element representation: user-supplied less is interpreted)
@@ -695,4 +719,22 @@ func (r *Run) concatStr(a, b value) value {
 		return r.strConcat(a, b)
 	}
 	return binop(r, tokenADD, nil, a, b)
+}
+
+// intOverConst recognises fl(to_real(i) / c) (or the unrounded quotient) for a non-negative integer
+// term i < 2^52 and an integer constant 0 < c <= 2^20. For such quotients Floor/Ceil/Round can be
+// computed exactly in integers: the quotient is either an integer or a half-integer (both exactly
+// representable) or at least 1/(2c) away from every integer and half-integer, which is far more than
+// the 2^-53 relative rounding error of the float division.
+func intOverConst(q *Term) (*Term, *big.Int) {
+	if q.op == "fl" {
+		q = q.args[0]
+	}
+	if q.op == "/" && len(q.args) == 2 && q.args[0].op == "to_real" && q.args[1].isCon && q.args[1].rval.IsInt() {
+		i, c := q.args[0].args[0], q.args[1].rval.Num()
+		if c.Sign() > 0 && c.Cmp(big.NewInt(1<<20)) <= 0 && i.lo != nil && i.lo.Sign() >= 0 && i.hi != nil && i.hi.Cmp(new(big.Int).Lsh(big.NewInt(1), 52)) < 0 {
+			return i, c
+		}
+	}
+	return nil, nil
 }
